@@ -146,7 +146,7 @@ def r_precedence(bom, args, meta):
 
 def precedence(bom: int, a0: int, a1: int, a2: int, a3: int, a4: int, meta: int, late: int) -> bool:
     """
-    pre: 0 <= bom < 6 and 0 <= a0 < 4 and 0 <= a1 < 4 and 0 <= a2 < 4 and 0 <= a3 < 4 and 0 <= a4 < 4 and 0 <= meta < 4 and 0 <= late <= 3
+    pre: 0 <= bom < 6 and 0 <= a0 < 4 and 0 <= a1 < 4 and 0 <= a2 < 4 and 0 <= a3 < 4 and 0 <= a4 < 4 and 0 <= meta < 4 and 0 <= late <= 4
     pre: P("bom", None) is None or bom == P("bom", None)
     pre: P("a0", None) is None or a0 == P("a0", None)
     pre: a3 <= P("amax", 3) and a4 <= P("amax", 3)
@@ -155,7 +155,7 @@ def precedence(bom: int, a0: int, a1: int, a2: int, a3: int, a4: int, meta: int,
     b = pick(6, bom)
     sel = [pick(4, a) for a in (a0, a1, a2, a3, a4)]
     m = pick(4, meta)
-    lt = pick(4, late)
+    lt = pick(5, late)
     with untraced():
         names = list(ARGVALS)
         args = dict((names[i], ARGVALS[names[i]][sel[i]]) for i in range(5))
@@ -163,9 +163,12 @@ def precedence(bom: int, a0: int, a1: int, a2: int, a3: int, a4: int, meta: int,
         if want in ("utf-32le", "utf-32be"):
             return True                 # webencodings knows no UTF-32: html5lib cannot decode it whatever the order says
         body = BOMS[b] + METAS[m] + b"<p>caf\xe9</p>"
-        late_meta = (b"", b"<meta charset=shift_jis>", b"<meta http-equiv=Content-Type content='text/html; charset=shift_jis'>", b"<meta charset=utf-16>")[lt]
+        trailer = b"</zz>"                  # a parse error at the very end: its recorded position must lie inside the input
+        late_meta = (b"", b"<meta charset=shift_jis>", b"<meta http-equiv=Content-Type content='text/html; charset=shift_jis'>", b"<meta charset=utf-16>", b"<meta charset=shift_jis>")[lt]
         if lt:
-            body += b"<!--" + b"x" * 1100 + b"-->" + late_meta
+            # variant 4: the declaration lies beyond the stream's first 10240-character chunk
+            body += b"<!--" + b"x" * (1100 if lt < 4 else 10300) + b"-->" + late_meta
+        body += trailer
         kw = dict((k, v) for k, v in args.items() if v is not None)
         # (a) the stream's own decision
         st = _inputstream.HTMLBinaryInputStream(BytesIO(body), useChardet=False, **kw)
@@ -182,7 +185,7 @@ def precedence(bom: int, a0: int, a1: int, a2: int, a3: int, a4: int, meta: int,
             if m:
                 labels.append([None, "windows-1251", "utf-16", "bogus"][m])
             if lt:
-                labels.append(["", "shift_jis", "shift_jis", "utf-16"][lt])
+                labels.append(["", "shift_jis", "shift_jis", "utf-16", "shift_jis"][lt])
             for lab in labels:
                 enc = _canon(lab)
                 if enc is None:
@@ -193,6 +196,14 @@ def precedence(bom: int, a0: int, a1: int, a2: int, a3: int, a4: int, meta: int,
                 break
         if webencodings.lookup(p.documentEncoding).name != final:
             return False
+        # positions of the recorded errors (also after a restart caused by a late declaration) lie inside the input
+        if not final.startswith("utf-16"):
+            ntext = len(body[len(BOMS[b]):].decode(webencodings.lookup(final).codec_info.name, "replace"))
+            if not p.errors:
+                return False
+            for (line, col), code, dv in p.errors:
+                if line != 1 or not (0 <= col <= ntext):
+                    return False
         if final.startswith("utf-16"):
             return True
         payload = body[len(BOMS[b]):]
